@@ -12,6 +12,7 @@ Line-protocol driver for the AD model (property C02).
   sysmap <token lists: teqs… ; meqs… ; tv ; shocks ; mvars ; mshocks>   -> A=…|B=…|D=…|F=…|G=…|J=…
   stacked <spots> <cols> <eqs…>          -> entries
   sysmat F <logly bits> <ndata> (q s val)… <tv> <neq> (<wrt> <expr>)…  -> A=row;row|B=row;row   (dense, bits)   | err:rejected
+  sysall F <bits> <data> <tv> <shocks> <mvars> <mshocks> <nT> (<wrt> <expr>)… <nM> (<wrt> <expr>)…  -> A=…|B=…|D=…|F=…|G=…|J=…
   evhist (f|j|e):<point id> …             -> the point in force at every observation
   termrows <all spots> <nreg> <cols> <eqs…>  -> sorted rows of the stored pattern beyond the regular spots   (terminate_jacobian)
   termspots <cols> <qids> <last> <n (q maxshift)…>  -> inx:q:c,…     (Terminator.__init__)
@@ -162,6 +163,34 @@ def runSysmat {α : Type} [Add α] [Sub α] [Mul α] [Div α] [Neg α] [NatCast 
       ";".intercalate ((List.range eqs.length).map (fun r => ",".intercalate ((List.range tv.length).map (fun c => sv (m r c)))))
     pure ("A=" ++ show_ a ++ "|B=" ++ show_ b)
 
+/-- `sysall`: A B D F G J (equation rows) of one variant, dense, row-major -/
+def runSysall {α : Type} [Add α] [Sub α] [Mul α] [Div α] [Neg α] [NatCast α] [IntCast α] [ADFun α]
+    (pv : P α) (sv : α → String) (dflt zero : α) (ext : Fn1 → α → α) (ws : List String) : Option String := do
+  let (bits, ws) ← (match ws with | w :: ws => some (w, ws) | [] => none)
+  let (data, ws) ← pCounted (fun ws => do
+    let (t, ws) ← pToken ws
+    let (v, ws) ← pv ws
+    pure ((t, v), ws)) ws
+  let (tv, ws) ← pCounted pToken ws
+  let (shocks, ws) ← pCounted pToken ws
+  let (mvars, ws) ← pCounted pToken ws
+  let (mshocks, ws) ← pCounted pToken ws
+  let pEq : P (Expr α × List Token) := fun ws => do
+    let (wrt, ws) ← pCounted pToken ws
+    let (e, ws) ← pExpr pv (ws.length + 1) ws
+    pure ((e, wrt), ws)
+  let (teqs, ws) ← pCounted pEq ws
+  let (meqs, ws) ← pCounted pEq ws
+  if !ws.isEmpty then none
+  match systemAll (lookup dflt data) (loglyOf bits) ext teqs meqs tv shocks mvars mshocks zero with
+  | none => pure "err:rejected"
+  | some s =>
+    let show_ (m : Nat → Nat → α) (nr nc : Nat) : String :=
+      ";".intercalate ((List.range nr).map (fun r => ",".intercalate ((List.range nc).map (fun c => sv (m r c)))))
+    pure ("A=" ++ show_ s.A teqs.length tv.length ++ "|B=" ++ show_ s.B teqs.length tv.length ++
+      "|D=" ++ show_ s.D teqs.length shocks.length ++ "|F=" ++ show_ s.F meqs.length mvars.length ++
+      "|G=" ++ show_ s.G meqs.length tv.length ++ "|J=" ++ show_ s.J meqs.length mshocks.length)
+
 /-! carriers -/
 
 def pXRat : P XRat
@@ -199,6 +228,10 @@ def runAdFloat (ws : List String) : Option String :=
 open FloatCarrier in
 def runSysmatFloat (ws : List String) : Option String :=
   runSysmat (α := Float) pFloat showFloat (0.0 / 0.0) 0.0 extFloat ws
+
+open FloatCarrier in
+def runSysallFloat (ws : List String) : Option String :=
+  runSysall (α := Float) pFloat showFloat (0.0 / 0.0) 0.0 extFloat ws
 
 def runAdXRat (ws : List String) : Option String :=
   runAd (α := XRat) pXRat showXRat none extXRat ws
@@ -255,6 +288,7 @@ def step (line : String) : String :=
       if !ws.isEmpty then none
       pure (",".intercalate ((dynid tv).map (fun r => toString r.1 ++ ":" ++ toString r.2.1 ++ ":" ++ toString r.2.2)))
     | "sysmat" :: "F" :: ws => runSysmatFloat ws
+    | "sysall" :: "F" :: ws => runSysallFloat ws
     | "evhist" :: ws => do
       -- ops `f:<id>` `j:<id>` `e:<id>` on point ids: which point is in force at every observation
       let ops ← ws.mapM (fun w => match w.splitOn ":" with
